@@ -415,7 +415,15 @@ func runWheel(c Case) Out {
 			target = int(num(op[1]))
 			op = op[2:]
 		}
-		r := ws[target].do(op)
+		// a call into the wheel that never returns (its loop is stuck behind a callback) must not hang the run
+		done := make(chan int, 1)
+		go func(w *wheelInst, op []any) { done <- w.do(op) }(ws[target], op)
+		var r int
+		select {
+		case r = <-done:
+		case <-time.After(60 * time.Second):
+			hx.Fatal("case %d: %v did not return within 60 s: the wheel's loop is blocked", c.ID, op)
+		}
 		if !hx.Quiesce(busy, 30*time.Second) {
 			out.Err = "callbacks did not quiesce"
 			return out
